@@ -471,7 +471,9 @@ func (P *Program) registerStd() {
 	})
 	// ---- sync / atomic
 	noop := func(fr *frame, args []value) value { return nil }
-	for _, n := range []string{"(*sync.Mutex).Lock", "(*sync.Mutex).Unlock", "(*sync.RWMutex).Lock", "(*sync.RWMutex).Unlock",
+	P.reg("(*sync.Mutex).Lock", func(fr *frame, args []value) value { fr.in.mutexLock(args[0].(*value)); return nil })
+	P.reg("(*sync.Mutex).Unlock", func(fr *frame, args []value) value { fr.in.mutexUnlock(args[0].(*value)); return nil })
+	for _, n := range []string{"(*sync.RWMutex).Lock", "(*sync.RWMutex).Unlock",
 		"(*sync.RWMutex).RLock", "(*sync.RWMutex).RUnlock", "(*sync.WaitGroup).Add", "(*sync.WaitGroup).Done", "(*sync.WaitGroup).Wait",
 		"runtime.Gosched", "runtime.GC"} {
 		P.reg(n, noop)
